@@ -40,6 +40,46 @@ def timeout(tier):
     return 300 if tier == "quick" else 1500
 
 
+class DstTz(datetime.tzinfo):
+    """A zone whose offset depends on the date, with the repeated hour told apart by ``fold`` (PEP 495) - what zoneinfo gives a caller.
+    Rule: daylight time from the second Sunday of March 02:00 to the first Sunday of November 02:00 (local), shifting by ``shift`` minutes."""
+
+    def __init__(self, std_minutes, shift, names):
+        self.std, self.shift, self.names = datetime.timedelta(minutes=std_minutes), datetime.timedelta(minutes=shift), names
+
+    @staticmethod
+    def _nth_sunday(year, month, n):
+        d = datetime.datetime(year, month, 1, 2)
+        d += datetime.timedelta(days=(6 - d.weekday()) % 7 + 7 * (n - 1))
+        return d
+
+    def _is_dst(self, dt):
+        naive = dt.replace(tzinfo=None, fold=0)
+        start, end = self._nth_sunday(dt.year, 3, 2), self._nth_sunday(dt.year, 11, 1)
+        if start + self.shift <= naive < end - self.shift:
+            return True
+        if start <= naive < start + self.shift:
+            return True  # the skipped hour: counted as daylight time
+        if end - self.shift <= naive < end:
+            return dt.fold == 0  # the repeated hour: first pass daylight, second pass standard
+        return False
+
+    def utcoffset(self, dt):
+        return self.std + (self.shift if self._is_dst(dt) else datetime.timedelta(0))
+
+    def dst(self, dt):
+        return self.shift if self._is_dst(dt) else datetime.timedelta(0)
+
+    def tzname(self, dt):
+        return self.names[1 if self._is_dst(dt) else 0]
+
+    def transitions(self, year):
+        return self._nth_sunday(year, 3, 2), self._nth_sunday(year, 11, 1)
+
+
+DST_ZONES = [(-300, 60, ("EST", "EDT")), (630, 30, ("LHST", "LHDT")), (60, 60, ("CET", "CEST")), (-210, 60, ("NST", "NDT"))]
+
+
 class FixedTz(datetime.tzinfo):
     """A custom tzinfo subclass (not datetime.timezone)."""
 
@@ -334,6 +374,17 @@ def run_shard(ctx):
             check_write_time(ctx, TM, tv, {"op": "write-time", "fields": [h, mi, s, us], "off": off, "name": name})
         if off % 131 == 0:
             ctx.sample({"op": "write", "value": repr(v), "text": DT.unconvert(v)})
+    # (c') zones whose offset depends on the date: around both yearly offset changes, on either side and inside the repeated hour
+    for zi, (std, shift, names) in enumerate(DST_ZONES):
+        tz = DstTz(std, shift, names)
+        for year in ([2021, 2007 + ctx.shard] if not thorough else range(1990, 2100, 3)):
+            for t in tz.transitions(year):
+                for base in (t, t - datetime.timedelta(minutes=shift), t + datetime.timedelta(minutes=shift)):
+                    for dus in (0, -1, -400, -499, -500, -501, -999, -1000, 1, 499, 500, 999500 - 10**6, -30 * 60 * 10**6, 30 * 60 * 10**6):
+                        for fold in (0, 1):
+                            v = (base + datetime.timedelta(microseconds=dus)).replace(tzinfo=tz, fold=fold)
+                            ctx.count("write_dst_zone_values")
+                            check_write_dt(ctx, DT, v, {"op": "write-dt-dst", "zone": zi, "naive": [v.year, v.month, v.day, v.hour, v.minute, v.second, v.microsecond], "fold": fold})
     # opposite signs of the same sub-hour offset in one process, both orders (state carried between calls)
     for m in range(1 + ctx.shard, 60, ctx.nshards):
         m2 = (m + 7) % 59 + 1
@@ -421,5 +472,8 @@ def replay(ctx, case):
     elif op == "write-dt":
         tz = FixedTz(case["off"], case["name"]) if case.get("custom_tz") else datetime.timezone(datetime.timedelta(minutes=case["off"]), *( [case["name"]] if case["name"] is not None else []))
         check_write_dt(ctx, DT, datetime.datetime(*case["fields"], tzinfo=tz), case)
+    elif op == "write-dt-dst":
+        std, shift, names = DST_ZONES[case["zone"]]
+        check_write_dt(ctx, DT, datetime.datetime(*case["naive"], tzinfo=DstTz(std, shift, names), fold=case["fold"]), case)
     elif op == "write-time":
         check_write_time(ctx, TM, datetime.time(*case["fields"], tzinfo=datetime.timezone(datetime.timedelta(minutes=case["off"]), case["name"] or "Z")), case)
